@@ -19,6 +19,10 @@ def _root_.Cnfgen.Gen.Expr.deps : Expr → List String
   | .or a b => a.deps ++ b.deps
   | .cmp _ a b => a.deps ++ b.deps
   | .ite c t e => c.deps ++ t.deps ++ e.deps
+  | .binop _ a b => a.deps ++ b.deps
+  | .order g => g.deps
+  | .cons h t => h.deps ++ t.deps
+  | .mkgraph _ sp => sp.deps
   | .opaque _ ds => ds
   | _ => []
 
@@ -73,7 +77,15 @@ def positionalOK (s : CliSpec) (o : OptSpec) : Bool :=
   (callTemplates s).all (fun t =>
     mentionCount t o.dest ≥ 1 && directCount t o.dest ≤ 1 && (hasOpaqueArg t || directCount t o.dest == 1))
 
-def positionalsOK (s : CliSpec) : Bool := ((positionals s).filter (·.action != "PHPArgs")).all (positionalOK s)
+/-- a positional of a sub-parser of `compose_two_parsers` reaches the calls made when that sub-parser is
+chosen: some call mentions it (or it selects the path, like the charge of `tseitin`), no call is given it twice -/
+def subPositionalOK (s : CliSpec) (o : OptSpec) : Bool :=
+  ((callTemplates s).any (fun t => mentionCount t o.dest ≥ 1) || (guardDeps s).contains o.dest) &&
+  (callTemplates s).all (fun t => directCount t o.dest ≤ 1)
+
+def positionalsOK (s : CliSpec) : Bool :=
+  ((positionals s).filter (fun o => o.action != "PHPArgs" && o.action != "compose_two_parsers")).all (positionalOK s) &&
+  (s.opts.filter (fun o => o.nested && o.positional)).all (subPositionalOK s)
 
 /-- parameter names of a library function (`*ks` counts as `ks`) -/
 def paramsOf (fn : String) : List String :=
@@ -114,6 +126,22 @@ def specWF (s : CliSpec) : Bool :=
   (s.opts.all (fun o => !o.required || o.positional || (!isFlag o && (s.opts.filter isFlag).all (·.dest != o.dest)))) &&
   -- option strings are not shared
   ((s.opts.flatMap (fun o => if o.positional then [] else o.flags)).Nodup)
+
+/-- no OTHER option of `o`'s mutually exclusive group occurs on the command line -/
+def noRival (s : CliSpec) (o : OptSpec) (argv : List String) : Bool :=
+  o.group == "" ||
+  argv.all (fun t => match optOf s t with | some o' => o'.group != o.group || o' == o | none => true)
+
+/-- (decidable form of `numericBranch`, Lemmas/DispatchNumeric.lean) the sub-command's only positional is the
+composed action `c`, and the sub-parser chosen when the first token is a number has positionals `[n, d]`: one
+typed token and an optional typed token -/
+def numericBranchB (s : CliSpec) (c n d : OptSpec) : Bool :=
+  positionals s == [c] && c.action == "compose_two_parsers" && c.arity == .star && !c.nested &&
+  (match c.compose with | [p1, _] => subPositionals s p1 == [n, d] | _ => false) &&
+  composeOpt s c.dest == some c &&
+  n.arity == .one && d.arity == .opt && n.action != "PHPArgs" && n.action != "compose_two_parsers" &&
+  d.action != "PHPArgs" && d.action != "compose_two_parsers" && n.dest != d.dest &&
+  s.opts.all (fun o => o.positional || !o.required)
 
 /-! ### classes of sub-commands for the generic theorems -/
 
